@@ -8,6 +8,7 @@ import (
 	"bytes"
 	"context"
 	"encoding/json"
+	"errors"
 	"fmt"
 	"net/http"
 	"net/http/httptest"
@@ -68,6 +69,8 @@ type Cfg struct {
 	Providers        []string
 	ProfileKeys      []string // application's declared profile fields (PutArbitrary keeps only these)
 	RegWhitelist     []string // body reader whitelist for the register page (nil = shipped default)
+	StoreTZ          int      // seconds east of UTC of the timestamps the storer hands out (0: as stored)
+	NilSessionState  bool     // the session store answers a nil state for requests without a stored session
 	PersistArbitrary bool     // the user type stores every key PutArbitrary hands it (only sensible with an explicit RegWhitelist)
 }
 
@@ -171,6 +174,7 @@ type Rec struct {
 	Arbitrary   []map[string]string
 
 	HandlerErr   string
+	AppHook      string // "<event>:<mode>" when an armed application listener fired in this request
 	HandlerRan   bool
 	HandlerStart int // value of the global sequence counter when the wrapped route handler began
 	Panic        string
@@ -226,14 +230,16 @@ type World struct {
 	// lists the operations at which a plan entry actually fired.
 	Yield     map[int]func()
 	YieldedAt []string
-	FailSMS   bool
-	handler   http.Handler
-	cur       *Rec
-	seq       int
-	fidx      int
-	now       time.Time
-	sidSalt   string
-	SendMail  bool
+	// HookMode arms the application's event listeners for the next request ("handled" | "error").
+	HookMode string
+	FailSMS  bool
+	handler  http.Handler
+	cur      *Rec
+	seq      int
+	fidx     int
+	now      time.Time
+	sidSalt  string
+	SendMail bool
 }
 
 var epoch = time.Date(2031, 3, 14, 9, 26, 53, 0, time.UTC)
@@ -256,8 +262,12 @@ func New(cfg Cfg, salt string) (w *World, err error) {
 	w.Store.OneTime = cfg.OneTimeTOTP
 	w.Store.ProfileKeys = cfg.ProfileKeys
 	w.Store.PersistAll = cfg.PersistArbitrary
+	if cfg.StoreTZ != 0 {
+		w.Store.TimeLoc = time.FixedZone("db", cfg.StoreTZ)
+	}
 	w.Store.OAuth2Confirmed = cfg.OAuth2Confirmed
 	w.Sess = newSessionStore(w)
+	w.Sess.NilWhenAbsent = cfg.NilSessionState
 	w.Cook = &CookieStore{w: w}
 	w.Prov = newProvider()
 
@@ -368,6 +378,31 @@ func New(cfg Cfg, salt string) (w *World, err error) {
 		if err := (&twofactor.Recovery{Authboss: ab}).Setup(); err != nil {
 			return nil, err
 		}
+	}
+	// the application's own event listeners (registered after the modules', as an application that
+	// calls Events.After(...) once authboss is initialised does). They do nothing unless HookMode arms
+	// them for the next request: "handled" = the listener answers the request itself (writes a page,
+	// returns handled=true), "error" = it fails. An armed listener fires on the first After-event of
+	// that request that nobody has handled yet.
+	for _, ev := range []authboss.Event{authboss.EventRegister, authboss.EventAuth, authboss.EventOAuth2, authboss.EventAuthFail, authboss.EventOAuth2Fail, authboss.EventRecoverEnd,
+		authboss.EventPasswordReset, authboss.EventLogout, authboss.EventTwoFactorAdded, authboss.EventTwoFactorRemoved} {
+		ev := ev
+		ab.Events.After(ev, func(rw http.ResponseWriter, r *http.Request, handled bool) (bool, error) {
+			if w.HookMode == "" || handled || w.cur == nil {
+				return false, nil
+			}
+			mode := w.HookMode
+			w.HookMode = ""
+			w.cur.AppHook = ev.String() + ":" + mode
+			if mode == "error" {
+				w.cur.FaultsFired++ // an injected failure like any other
+				return false, errors.New("application listener failed")
+			}
+			rw.Header().Set("Content-Type", "text/plain")
+			rw.WriteHeader(200)
+			rw.Write([]byte("application listener answered " + ev.String()))
+			return true, nil
+		})
 	}
 	w.Lock = &lock.Lock{Authboss: ab}
 	w.Conf = &confirm.Confirm{Authboss: ab}
@@ -765,6 +800,7 @@ func (w *World) DoOn(h http.Handler, b *Browser, rq Req) *Rec {
 	w.Faults = nil
 	w.FaultOps = nil
 	w.Yield = nil
+	w.HookMode = ""
 	rec.After = w.Store.Snapshot()
 	rec.Status = rr.Code
 	rec.Header = rr.Header().Clone()
